@@ -94,6 +94,12 @@ func (env *SpecEnv) resolveType(text string) types.Type {
 				}
 			}
 		}
+	case strings.HasPrefix(text, "chan "):
+		return types.NewChan(types.SendRecv, env.resolveType(text[5:]))
+	case strings.HasPrefix(text, "<-chan "):
+		return types.NewChan(types.RecvOnly, env.resolveType(text[7:]))
+	case strings.HasPrefix(text, "chan<- "):
+		return types.NewChan(types.SendOnly, env.resolveType(text[7:]))
 	case strings.HasPrefix(text, "func("):
 		// func(A, B) R   (at most one unnamed result)
 		depth, end := 0, -1
@@ -755,6 +761,14 @@ func (env *SpecEnv) evalCall(x *Expr) Value {
 			return Value{term: e.implementsTerm(env.cur, a.term, t), typ: boolT}
 		}
 		return Value{term: fmt.Sprintf("(= (itag %s) %d)", a.term, e.u.tagOf(t)), typ: boolT}
+	case "wellformed":
+		// wellformed(x): an interface value that is not nil and does not hold a nil pointer
+		argc(1)
+		a := env.eval(x.Args[0])
+		if e.u.sortOf(a.typ) != sortIface {
+			env.errorf("wellformed needs an interface value")
+		}
+		return Value{term: "(and (not (= (itag " + a.term + ") 0)) (=> ((_ is VRef) (ival " + a.term + ")) (not (= (vref (ival " + a.term + ")) 0))))", typ: boolT}
 	case "isnil":
 		argc(1)
 		a := env.eval(x.Args[0])
